@@ -11,8 +11,8 @@ theorem step_call_inc {P : Prog} {rank : Nat → Nat} (hacy : Acyclic P rank) (f
     (hv : evalS fuel P s.srcs s.maps [] (nodeOf P f a) = .ok v) :
     TopInv P (step fuel P s (.call f a)).1 ∧
       ((step fuel P s (.call f a)).2 = .dead ∨ (step fuel P s (.call f a)).2 = .val v) ∧
-      (s.poisoned = false → ∃ r', alookup (step fuel P s (.call f a)).1.derived (nodeOf P f a) = some r' ∧
-        r'.tv = (step fuel P s (.call f a)).1.epoch) := by
+      (s.poisoned = false → (∃ r', alookup (step fuel P s (.call f a)).1.derived (nodeOf P f a) = some r' ∧
+        r'.tv = (step fuel P s (.call f a)).1.epoch) ∧ Evolves (fun _ => True) s (step fuel P s (.call f a)).1) := by
   unfold step
   by_cases hp : s.poisoned = true
   · rw [if_pos hp]; exact ⟨h, Or.inl rfl, fun h' => by rw [hp] at h'; cases h'⟩
@@ -34,7 +34,8 @@ theorem step_call_inc {P : Prog} {rank : Nat → Nat} (hacy : Acyclic P rank) (f
       simp [regDep, hst']
     simp only [callVia, hexec, hl, hval]
     exact ⟨(TopInv.ofINV hinv' hst').congr hst' rfl rfl rfl rfl, by simp,
-      fun _ => ⟨r', rfl, by rw [htv']; exact hev.epoch.symm⟩⟩
+      fun _ => ⟨⟨r', rfl, by rw [htv']; exact hev.epoch.symm⟩,
+        ((hev.congr_left (s0 := s) rfl rfl rfl rfl rfl).congr_right (s'' := { s' with refs := if s'.refs.contains (nodeOf P f a) then s'.refs else nodeOf P f a :: s'.refs }) rfl rfl rfl rfl rfl).mono (fun _ _ => trivial)⟩⟩
 
 theorem TopInv.step {P : Prog} {rank : Nat → Nat} (hacy : Acyclic P rank) (fuel : Nat) (hrank : ∀ g, rank g < fuel)
     {s : Storage} (hinv : TopInv P s) (op : Op)
